@@ -390,4 +390,57 @@ the seeded change that cached the CSV header map on the instance breaks it.) -/
 theorem reader_history_frame (r : ReaderKind) (hist : List (List Text × Bool)) :
     readerRun r hist = hist.map (fun i => if i.2 then none else some (readerParse r i.1)) := readerRun_frame' r hist
 
+/-! ### (c) whole sparse ARFF files (phase 4) -/
+
+/-- the whole `ArffReader` on a whole sparse file of the Weka / OpenML-style writer: attribute lines (`AttrW.line`), the
+`@data` line in any case, one line `{i v, i v, …}` per row (`sparseRowLine`: decimal column index, one blank, the bare
+value or `?`; a comma and any number of blanks between items; `{}` for the all-default row).  The reader returns the
+column names and per row (`sparseRowOut`) the written items under their column names, encoded by the column's encoder
+(nominal columns carry coba's extra level `'0'` in front), followed by the default entries of the columns that were
+not written and do not read as numeric 0 (string columns read `'0'`, nominal columns the level `'0'` — coba's sparse
+convention), and the `missing` flag = "some written item is `?`".
+Hypotheses: those of `arff_header_roundtrip` (F8, F9); `sparseRowWOk`: indices decimal, distinct, inside the column
+range, values bare tokens not ending in a brace (C12-F10: the sparse tokenizer has no quote handling), every cell fits
+its column (float literal / level of the column / string without `?`: F12, F13); at least one row.
+No hypothesis on the first line is needed (a written sparse row always begins with `{` and ends with `}`). -/
+theorem arff_sparse_table_roundtrip (q : Nat) (hq : q = SQ ∨ q = DQ) (also : Nat → Bool) (attrs : List AttrW) (dkw : Text)
+    (rows : List (Nat × List (Text × CellW)))
+    (hattrs : attrs ≠ []) (hok : ∀ a ∈ attrs, a.ok false = true) (hnd : (attrs.map (·.name.2)).Nodup)
+    (hdkw : lowerAscii dkw = kwData) (hne : rows ≠ [])
+    (hrows : ∀ r ∈ rows, sparseRowWOk attrs.length (attrs.map (·.typ.enc false)) r.2 = true) :
+    arffReadN (attrs.map (·.line q also) ++ dkw :: rows.map (fun r => sparseRowLine r.1 r.2)) =
+      .ok (.sparse (attrs.map (·.name.2))
+        (rows.map fun r => ⟨sparseRowOut (attrs.map (·.name.2)) (attrs.map (·.typ.enc false)) r.2, r.2.any (·.2.isMissing)⟩)) :=
+  arff_sparse_table' q hq also attrs dkw rows hattrs hok hnd hdkw hne hrows
+
+example : sparseRowWOk 3 [.numeric, .str, .nominal [[48], [120], [121]]]
+    [([48], .num [49, 46, 53]), ([50], .cat [121])] = true ∧
+    sparseRowWOk 3 [.numeric, .str, .nominal [[48], [120], [121]]] [([49], .missing)] = true ∧
+    sparseRowWOk 3 [.numeric, .str, .nominal [[48], [120], [121]]] [] = true ∧
+    sparseRowOut [[97], [98], [99]] [.numeric, .str, .nominal [[48], [120], [121]]] [([48], .num [49, 46, 53])] =
+      [([97], .num [49, 46, 53]), ([98], .str [48]), ([99], .cat [48] [[48], [120], [121]])] := by decide
+
+/-- the `missing` flag of a written sparse line is "some written item is the missing marker" -/
+theorem arff_sparse_missing_flag (pad n : Nat) (encs : List Enc) (row : List (Text × CellW))
+    (h : sparseRowWOk n encs row = true) :
+    sparseMissing (sparseRowLine pad row) = row.any (·.2.isMissing) := sparseMissing_written pad n encs row h
+
+/-- C12-F16 at the boundary of the writer: a blank before the closing brace (`{ 0 ? }`, as in coba's own `{ }` test)
+hides the marker from `ArffDataReader._sparse` -/
+theorem arff_sparse_missing_blank_counterexample :
+    sparseMissing [123, 32, 48, 32, 63, 32, 125] = false ∧ sparseMissing (sparseRowLine 0 [([48], .missing)]) = true := by decide
+
+/-! ### the tab path and the fallback parser `_dense_advanced` (phase 4) -/
+
+/-- C12-F11 on the complete line reader: Weka writes `x"y\z` as `'x\"y\\z'`; the line holds both quote characters,
+the reader goes to its fallback parser and returns `x"yz` — the backslash that was written is lost -/
+theorem arff_fallback_backslash_counterexample :
+    (arffLineStepF 1 ALRF.init (arffWriteRow SQ (fun c => c == DQ) 0 [(false, [120, DQ, 121, BS, 122])])).map (·.2) =
+      .ok [[120, DQ, 121, 122]] := by decide
+
+/-- C12-F14 on the complete line reader: the tab-delimited row `x<TAB>'y,'` (two columns) is split at the comma first
+(the comma attempt yields two fields, the right count) -/
+theorem arff_tab_comma_counterexample :
+    (arffLineStepF 2 ALRF.init [120, TAB, SQ, 121, COMMA, SQ]).map (·.2) ≠ .ok [[120], [121, COMMA]] := by decide
+
 end Coba.C12
